@@ -17,6 +17,9 @@ package roaring
 
 // ---- well-formedness and membership --------------------------------------
 
+// u16(x) marks a quantified value as a container-local value; as a function
+// application it is also the instantiation trigger of membership quantifiers.
+//@ rec u16(x int) bool = 0 <= x && x < 65536
 //@ spec sorted16(a []uint16) = forall i, j :: 0 <= i && i < j && j < len(a) ==> a[i] < a[j]
 //@ spec sorted64(a []uint64) = forall i, j :: 0 <= i && i < j && j < len(a) ==> a[i] < a[j]
 //@ spec sortedRuns(r []interval16) = (forall i :: 0 <= i && i < len(r) ==> r[i].start <= r[i].last) && (forall i, j :: 0 <= i && i < j && j < len(r) ==> r[i].last < r[j].start)
@@ -225,10 +228,12 @@ package roaring
 
 //@ contract (*Container).bitmapAdd props C01,C03
 //@   requires c != nil && wfBm(c) && c.n < 2147483647
+//@   modifies c.flags, c.pointer, c.len, c.cap, c.data, c.typeID, c.n, c.$arr, c.$runs, c.$bm, elems(c.$arr), elems(c.$runs), elems(c.$bm)
+//@   ensures result0 != nil ==> (result0.$arr.ref == 0 || result0.$arr.ref == old(c.$arr.ref) || fresh(result0.$arr)) && (result0.$runs.ref == 0 || result0.$runs.ref == old(c.$runs.ref) || fresh(result0.$runs)) && (result0.$bm.ref == 0 || result0.$bm.ref == old(c.$bm.ref) || fresh(result0.$bm))
 //@   ensures result0 != nil && wfBm(result0)
 //@   ensures (old(c.flags) & 3) == 0 ==> result0 == c
 //@   ensures result1 <==> !old(mem(c, v))
-//@   ensures forall x :: 0 <= x && x < 65536 ==> (mem(result0, x) <==> (x == v || old(mem(c, x))))
+//@   ensures forall x :: u16(x) ==> (mem(result0, x) <==> (x == v || old(mem(c, x))))
 //@   ensures result1 ==> result0.n == old(c.n) + 1
 //@   ensures !result1 ==> result0 == c && result0.n == old(c.n)
 //@   ensures (old(c.flags) & 2) != 0 && result1 ==> fresh(result0)
